@@ -9,6 +9,7 @@
    transmit block is a different event (the transaction was mined again after a re-org). *)
 From Verif Require Import Base.Util Model.Coordinator Proofs.CoordinatorProofs.
 From Verif Require Import Base.GenIR Gen.GeneratedTr Proofs.GenTrCoordinator.
+From Verif Require Import Model.Pipeline Proofs.GenTrPost.
 Open Scope Z_scope.
 
 (* Every answer of ShouldProcess / PreProcess / FilterResults / FilterProposals, in every history,
@@ -109,6 +110,19 @@ Theorem C07_gen_filter_loop_bodies : forall should : bool,
   g_coord_preprocess_body should = ((if should then [1] else []), Fall).
 Proof. exact gen_coord_filter_bodies. Qed.
 Print Assumptions C07_gen_filter_loop_bodies.
+
+(* wiring of the six flows, pre-processors: the coordinator comes first in every flow (so every payload a flow checks went through coordinator.PreProcess); the two proposal flows add the proposal filterer *)
+Theorem C07_gen_flow_preprocessors :
+  forall k,
+  hd (-1) (pre_of k) = 0 /\ memZ 5 (pre_of k) = has_prop k.
+Proof. exact gen_wiring_pre. Qed.
+Print Assumptions C07_gen_flow_preprocessors.
+
+(* the factories hand every flow constructor a slice holding exactly the coordinator *)
+Theorem C07_gen_flow_factories :
+  g_wire_factory_log = [0; 0; 0] /\ g_wire_factory_cond = [0; 0].
+Proof. exact gen_wiring_factories. Qed.
+Print Assumptions C07_gen_flow_factories.
 
 (* Non-vacuity: life-cycle accept -> perform -> re-propose -> expiry for a conditional (type 0) and a
    log (type 1) work id; the hypotheses of the theorems above are met along the way. *)
